@@ -1,42 +1,41 @@
 #!/bin/bash
-# tools/seedcheck.sh <PROP> <k> <pkgdir-of-demo> [check-ids...]
+# tools/seedcheck.sh <PROP> <k> [pkgdir-of-demo] [check-ids...]
 # Confirms a seeded defect (patch compiles, suite passes, demo fails with / passes without it) in a scratch
-# worktree, then runs our quick check(s) against /repo with the patch applied and undoes it.
+# worktree of /repo, then runs our quick check(s) against that worktree (VERIF_REPO) with the patch applied.
+# /repo itself is never touched. The worktree and its build output are removed at the end.
 set -u
-PROP=$1; K=$2; PKG=$3; shift 3
-CHECKS=${*:-$PROP}
+PROP=$1; K=$2; shift 2
 SRC=${SEEDSRC:-/tmp/seed}/$PROP.out
+PKG=${1:-}; [ $# -gt 0 ] && shift
+[ -z "$PKG" ] && PKG=$(head -1 "$SRC/$K.pkg" | tr -d ' \n')
+CHECKS=${*:-$PROP}
 . /verif/goenv.sh
-WT=/tmp/seedverify-$PROP-$K
-rm -rf "$WT"; git -C /repo worktree prune
+WT=/tmp/seedverify-$PROP-$K; SC=/tmp/seedverify-sc-$PROP-$K
+rm -rf "$WT" "$SC"; git -C /repo worktree prune
 git -C /repo worktree add -q --detach "$WT" HEAD || exit 2
 cd "$WT"
 cp "$SRC/$K.demo_test.go" "$PKG/seed_${PROP}_${K}_demo_test.go"
 DEMO_CLEAN=fail; DEMO_MUT=pass; BUILD=fail; SUITE=fail
 RUNRE=$(grep -o "^func Test[A-Za-z0-9_]*" "$SRC/$K.demo_test.go" | sed 's/func //' | paste -sd'|')
 $GO test -vet=off -count=1 -run "^($RUNRE)\$" "./$PKG/" >/tmp/seedverify-$PROP-$K.clean.log 2>&1 && DEMO_CLEAN=pass
+RESULTS=""
 if git apply "$SRC/$K.patch.diff"; then
   $GO build ./... >/dev/null 2>&1 && BUILD=ok
   $GO test -vet=off -count=1 -run "^($RUNRE)\$" "./$PKG/" >/tmp/seedverify-$PROP-$K.mut.log 2>&1 || DEMO_MUT=fail
   rm -f "$PKG/seed_${PROP}_${K}_demo_test.go"
-  out=$($GO test -vet=off -count=1 ./... 2>&1); if ! echo "$out" | grep -E "^(--- FAIL|FAIL)" | grep -v -E "TestTaskRepeat|TestTable|^FAIL$|FAIL\s+github.com/mycoria/mycoria/(mgr|m)\s" >/dev/null; then SUITE=pass; fi
+  out=$($GO test -vet=off -count=1 ./... 2>&1); if ! echo "$out" | grep -E "^(--- FAIL|FAIL)" | grep -v -E "TestTaskRepeat|TestTaskDelayAndRepeat|TestTable|^FAIL$|FAIL\s+github.com/mycoria/mycoria/(mgr|m)\s" >/dev/null; then SUITE=pass; fi
   echo "$out" | grep -E "^--- FAIL" | head -5
+  echo "confirm: demo_on_clean=$DEMO_CLEAN demo_with_patch=$DEMO_MUT build=$BUILD suite=$SUITE"
+  cd /verif
+  for c in $CHECKS; do
+    VERIF_REPO="$WT" VERIF_SCRATCH="$SC" ./check $c quick > /tmp/seedverify-$PROP-$K.check-$c.log 2>&1; rc=$?
+    RESULTS="$RESULTS $c=$rc"
+    grep -m2 -A1 "^VIOLATION\|^INCONCLUSIVE" /tmp/seedverify-$PROP-$K.check-$c.log | cut -c1-300
+  done
 else
   echo "patch does not apply"
 fi
-cd /; git -C /repo worktree remove --force "$WT"
-echo "confirm: demo_on_clean=$DEMO_CLEAN demo_with_patch=$DEMO_MUT build=$BUILD suite=$SUITE"
-# run our checks against the mutated /repo
-cd /verif
-git -C /repo apply "$SRC/$K.patch.diff" || { echo "cannot apply to /repo"; exit 2; }
-RESULTS=""
-for c in $CHECKS; do
-  VERIF_EVIDENCE_DIR=/verif/.run/seed-evidence ./check $c quick > /tmp/seedverify-$PROP-$K.check-$c.log 2>&1; rc=$?
-  RESULTS="$RESULTS $c=$rc"
-  grep -m2 -A1 "^VIOLATION" /tmp/seedverify-$PROP-$K.check-$c.log | cut -c1-300
-done
-git -C /repo checkout -- .
-git -C /repo status --short | head -3
+cd /; git -C /repo worktree remove --force "$WT"; rm -rf "$SC"
 echo "checks:$RESULTS"
 D=/verif/seeded/$PROP-$K; mkdir -p $D
 cp "$SRC/$K.patch.diff" $D/patch.diff; cp "$SRC/$K.demo_test.go" $D/demo_test.go; cp "$SRC/$K.meta.txt" $D/agent_meta.txt
@@ -47,6 +46,6 @@ meta=open(f"/verif/seeded/{prop}-{k}/agent_meta.txt").read()
 json.dump({"property":prop,"id":f"{prop}-{k}","breaks":prop,"demo_package":pkg,
  "needs_to_manifest":meta.strip(),
  "confirmed":{"demo_on_clean_tree":dc,"demo_with_patch":dm,"build_with_patch":b,"existing_suite_with_patch":s},
- "what_i_ran":f"tools/seedcheck.sh {prop} {k} {pkg}: scratch worktree of /repo HEAD, demo placed in {pkg}/, go test with and without the patch, full suite with the patch; then patch applied to /repo, ./check quick, patch undone",
- "our_checks_quick_exit_codes":res.strip()}, open(f"/verif/seeded/{prop}-{k}/meta.json","w"), indent=1)
+ "what_i_ran":f"tools/seedcheck.sh {prop} {k} {pkg}: scratch worktree of /repo HEAD, demo placed in {pkg}/, go test with and without the patch, full suite with the patch; then ./check quick against that worktree with the patch applied (VERIF_REPO), worktree removed",
+ "first_evaluation_quick_exit_codes":res.strip()}, open(f"/verif/seeded/{prop}-{k}/meta.json","w"), indent=1)
 PY
